@@ -10,6 +10,7 @@ import sys
 
 VERIF = os.path.dirname(os.path.dirname(os.path.abspath(__file__)))
 jobs = int(sys.argv[1]) if len(sys.argv) > 1 else 3
+only = set(sys.argv[sys.argv.index("--only") + 1].split(",")) if "--only" in sys.argv else None  # seeded ids / break names
 tasks = []
 for path in sorted(glob.glob(os.path.join(VERIF, "breaks", "*", "*.diff"))):
     pid = os.path.basename(os.path.dirname(path))
@@ -30,6 +31,8 @@ def run(task):
     return task, line.split(" ", 1)[0], line
 
 
+if only is not None:
+    tasks = [t for t in tasks if (os.path.basename(t[2]) if t[0] == "seeded" else os.path.basename(t[2])[:-5]) in only]
 rows = []
 with concurrent.futures.ThreadPoolExecutor(max_workers=jobs) as pool:
     for task, verdict, line in pool.map(run, tasks):
